@@ -3,7 +3,7 @@ import json, os, random, time
 import vlib
 from checks import dpgen
 
-TRACE_KEEP = {"Reset", "Emit", "EmitLost", "Proc", "Write", "Confirm", "Reject", "DlqWrite", "DlqConfirm", "DlqReject",
+TRACE_KEEP = {"Reset", "Emit", "EmitLost", "ReconfCall", "ReconfRet", "Proc", "Write", "Confirm", "Reject", "DlqWrite", "DlqConfirm", "DlqReject",
               "SrcAck", "Durable", "Open", "Teardown", "Restore", "Call", "Ret", "End", "Hang", "Panic",
               "Fault", "HarnessError", "ChildTimeout"}
 
@@ -19,6 +19,8 @@ INV_OF = {
     "C07": {"DlqOnce", "DlqSourceOrder", "DlqBeforeAck", "DlqCarriesOriginal", "DlqDecision", "DlqFailNoAck", "DlqStops"},
     "C08": {"ExactlyOne", "WriteDerived", "NoEarlyAck", "DlqOnce", "DlqOriginal", "PositionImmutable", "AckPrefix",
             "NoDupWrite", "DestOrder"},
+    "C13": {"OneConfigPerRecord", "SwitchAtBoundary", "OnlyRequestedConfig", "FailedOpenKeepsOld", "AppliedIsInForce",
+            "AckPrefix", "NoEarlyAck", "DestOrder", "NoDupWrite", "NoHang", "TeardownMatchesOpen"},
     "C09": {"NoPanic", "NoHang", "NoEarlyAck", "CondAligned", "StoreMonotone", "PositionImmutable"},
 }
 
